@@ -514,6 +514,9 @@ def stream_cli(ctx, nss, cfgmod, tmp):
             (["--monospectrum", "10.0", "--pressuremapcloud", "March"], {"spectrum": ("monospectrum", {"log_nu_energy": 10.0}), "cloud": "pressure_map"})]
     if not ctx.thorough:
         runs = [runs[0], runs[1 + int(ctx.rng.integers(0, 2))], runs[3 + int(ctx.rng.integers(0, 2))]]
+    # the same run with intermediate writing: the file left at the end must be the same file (columns and every header value)
+    runs.insert(1, (["--write-stages"], dict(runs[0][1], same_as_plain=True)))
+    plain = None
     for opts, want in runs:
         out = os.path.join(tmp, "cli.fits")
         if os.path.exists(out):
@@ -528,6 +531,19 @@ def stream_cli(ctx, nss, cfgmod, tmp):
             ctx.violation("nuspacesim run", "cli-fails", f"exit code {r.exit_code}: {str(r.exception)[:160]}", case)
             continue
         tab = Table.read(out)
+        if not opts:
+            plain = tab
+        if want.get("same_as_plain") and plain is not None:
+            skip = {"DATE", "SIMTIME", "SIMTIMEN"}
+            mk = lambda t: {k: (str(v)) for k, v in t.meta.items() if k.upper() not in skip}  # noqa: E731
+            a, b = mk(plain), mk(tab)
+            miss = sorted(set(a) - set(b)); extra = sorted(set(b) - set(a)); chg = sorted(k for k in set(a) & set(b) if a[k] != b[k])
+            colbad = [c for c in plain.colnames if c not in tab.colnames or np.asarray(plain[c]).tobytes() != np.asarray(tab[c]).tobytes()]
+            if miss or extra or chg or colbad or plain.colnames != tab.colnames:
+                ctx.violation("nuspacesim run", "file-with-intermediate-writing-differs-from-plain-run",
+                              "the results file of the same seeded run differs when intermediate writing is requested",
+                              {**case, "header_keys_missing": miss[:8], "header_keys_extra": extra[:8], "header_values_changed": chg[:8], "columns_differing": colbad[:8]})
+                continue
         sid, pars = want["spectrum"]
         hdr = {k: tab.meta.get(("Config simulation spectrum " + k).upper(), tab.meta.get("Config simulation spectrum " + k)) for k in ("id", *pars)}
         le = np.asarray(tab["log_e_nu"], dtype=np.float64)
